@@ -527,3 +527,138 @@ def leader_add_sites(crate):
                             pmap[fb.var_names.get(i)] = r[1]
                 out.append({"call": c, "body": fb, "leader": lb, "conds": conds, "pmap": pmap})
     return out
+
+
+# ---------------------------------------------------------------------------- loop-exit census
+# file -> (reviewed number of *effectful* loops that may be left before the iterator is exhausted, reason)
+EARLY_EXIT_LOOPS = {
+    "src/debug.rs": (1, "Debug for SlotMap: `?` propagates a formatter error"),
+    "src/parse.rs": (2, "`?` propagates formatter errors (two Display impls)"),
+}
+
+
+def loop_effects(body, lp):
+    """calls inside the loop body that receive a `&mut` derived from a `&mut` parameter of the enclosing
+    function (or a closure capture): the loop changes state that outlives it"""
+    sb, it, none_e, some_e, cs = lp
+    inside = body.reach(some_e, avoid=set(none_e))
+    out = []
+    for c in body.calls:
+        if c.bb not in inside or body.blocks[c.bb]["cleanup"] or not c.callee or c is cs:
+            continue
+        for a in c.args:
+            pl = mir.op_place(a)
+            if pl is None or not body.local_ty(pl["l"]).startswith("&mut"):
+                continue
+            for x in role_walk(body.role_of_operand(a)):
+                if isinstance(x, tuple) and x[0] == "param":
+                    pi = body.param_index(x[1])
+                    if pi is not None and body.local_ty(pi).startswith("&mut"):
+                        out.append((c, x[1]))
+                        break
+    return out
+
+
+def loop_census(ctx, crate):
+    """every iterator-driven loop of the library that mutates state reachable from a `&mut` parameter
+    runs until its iterator is exhausted, except a frozen, per-file reviewed number of error-propagation
+    loops (pure search loops are not counted: leaving them early loses nothing)"""
+    tot = 0
+    eff = 0
+    early = {}
+    for b in crate.bodies.values():
+        if not (b.file or "").startswith("src/") or (b.file or "").endswith("tst.rs"):
+            continue
+        for lp in iterator_loops(b):
+            tot += 1
+            fx = loop_effects(b, lp)
+            if not fx:
+                continue
+            eff += 1
+            if not loop_exhaustive(b, lp):
+                early.setdefault(b.file, []).append((crate.root_of(b), b, lp, fx))
+    for file, sites in sorted(early.items()):
+        ent = EARLY_EXIT_LOOPS.get(file)
+        if ent is not None and len(sites) <= ent[0]:
+            ctx.ok("early-exit:%s" % file, "%d reviewed early-exit loop(s) in %s — %s" % (len(sites), file, ent[1]), where_of(sites[0][1], sites[0][2][0]))
+        else:
+            root, b, lp, fx = sites[-1]
+            ctx.bad("early-exit:%s" % file,
+                    "unreviewed early exit from a state-changing loop: %d loop(s) in %s that mutate through a &mut parameter can be left before their iterator is exhausted (break / return / `?` in the body), %d reviewed; e.g. the loop over %s in %s (it calls %s on `%s`). Elements after the exit are never processed" % (
+                        len(sites), file, ent[0] if ent else 0, role_str(lp[1])[:80], short(root.id), fx[0][0].callee.name, fx[0][1]), where_of(b, lp[0]))
+    ctx.floor("iterator-driven loops in the library", tot, 90)
+    ctx.floor("of which state-changing", eff, 18)
+    ctx.ok("census", "%d iterator-driven loops, %d state-changing, %d of those with a reviewed early exit, all others run to exhaustion" % (tot, eff, sum(len(v) for v in early.values())))
+
+
+# ---------------------------------------------------------------------------- slot inclusion at re-insert
+def all_cond_edges(body):
+    """[(edge, normalised condition)] for every edge of every boolean / discriminant switch of the body"""
+    out = []
+    for sb in body.switch_blocks():
+        t = body.blocks[sb]["term"]
+        role = body.role_of_operand(t["discr"])
+        vals = [v for v, _ in t["cases"]]
+        for label in vals + ["otherwise"]:
+            if label == "otherwise":
+                truth = True if vals == ["0"] else None
+            else:
+                truth = False if label == "0" else (True if label == "1" else None)
+            out.append((("e", sb, label), edge_condition(role, truth)))
+    return out
+
+
+def reinsert_functions(crate):
+    """handle_pending: reachable from the work-list drain, removes an e-node from the hashcons and adds it
+    back under its re-canonicalised form (calls two different hashcons writers directly), is neither the
+    class merge nor the leader union"""
+    hw = set(hashcons_writers(crate))
+    reach = set(crate.reachable_from(drain_functions(crate)))
+    excl = set(merge_functions(crate)) | set(leader_union_functions(crate)) | hw
+    out = []
+    for b in crate.fns():
+        if b.id in excl or b.id not in reach:
+            continue
+        tg = {c.callee.target for c in calls_to(crate, b, hw)}
+        if len(tg) >= 2:
+            out.append(b.id)
+    return sorted(out)
+
+
+def slot_inclusion(ctx, crate):
+    """a re-canonicalised e-node is put back into its class only after `slots(class) ⊆ slots(node)` was
+    established: every path from the entry of the re-insert function to the hashcons insert passes through the
+    true edge of that subset test or through a call that reaches the slot-set writer (the shrink)"""
+    fns = need("re-insert function (handle_pending)", reinsert_functions(crate))
+    sw = set(slot_writers(crate))
+    cg = crate.callgraph()
+    reaches_sw = {f for f in crate.bodies if sw & set(crate.reachable_from([f]))}
+    hw = set(hashcons_writers(crate))
+    for fid in fns:
+        b = crate.bodies[fid]
+        # the adder is the hashcons writer called last on every path (the one whose call is not followed by another writer)
+        sites = calls_to(crate, b, hw)
+        adds = [c for c in sites if c.callee.name != "remove" and not any(o is not c and o.callee.target != c.callee.target and o.bb in b.reach([c.bb]) for o in sites)]
+        if not ctx.check(bool(adds), "add-site:" + fkey(b), "re-insert site found in %s" % short(fid), "no re-insert site found in %s" % short(fid), where_of(b)):
+            continue
+        sub_true = []
+        for e, cond in all_cond_edges(b):
+            if cond[0] != "true":
+                continue
+            r = strip_role(cond[1])
+            if not (isinstance(r, tuple) and r[0] == "call" and r[1] in ("is_subset", "is_superset") and len(r[3]) == 2):
+                continue
+            small, big = (r[3][0], r[3][1]) if r[1] == "is_subset" else (r[3][1], r[3][0])
+            cls_side = mir.role_mentions_call(small, "slots") and (mir.role_mentions_call(small, "find_applied_id") or mir.role_mentions_call(small, "mk_sem_identity_applied_id") or mir.role_mentions_call(small, "mk_syn_identity_applied_id"))
+            node_side = mir.role_mentions_call(big, "slots") and (mir.role_mentions_call(big, "find_enode") or mir.role_mentions_call(big, "apply_slotmap"))
+            if cls_side and node_side:
+                sub_true.append(e)
+        shrink_calls = {c.bb for c in b.calls if c.callee and c.callee.target in reaches_sw and not b.blocks[c.bb]["cleanup"]}
+        ctx.check(bool(sub_true), "subset-test:" + fkey(b), "%s tests slots(class invocation) ⊆ slots(re-canonicalised node)" % short(fid),
+                  "%s has no test `slots(class invocation).is_subset(slots(re-canonicalised node))`: whether the class must shrink is decided by something weaker than set inclusion (a count comparison misses nodes that carry redundant slots of their own)" % short(fid), where_of(b))
+        ctx.check(bool(shrink_calls), "shrink-call:" + fkey(b), "%s can shrink the class (calls into the slot-set writer)" % short(fid),
+                  "%s never reaches the slot-set writer: a class whose node lost a slot is never shrunk" % short(fid), where_of(b))
+        for c in adds:
+            ok = b.must_pass([0], {c.bb}, set(sub_true) | shrink_calls)
+            ctx.check(ok, "inclusion-before-insert:" + fkey(b), "every path to the re-insert in %s passes the subset test's true edge or the shrink" % short(fid),
+                      "%s can put the e-node back into its class on a path where neither `slots(class) ⊆ slots(node)` was tested true nor the class was shrunk: the class keeps a slot that none of its nodes mentions (extraction then returns a term outside the class, look-ups of it miss)" % short(fid), where_of(b, c.bb))
